@@ -1,3 +1,7 @@
 import DyntplV.Basic
 import DyntplV.Esc.Url
+import DyntplV.Esc.Json
+import DyntplV.Esc.Html
 import DyntplV.Props.C09
+import DyntplV.Props.C07
+import DyntplV.Props.C08
